@@ -204,7 +204,65 @@ func H_C08_word(v *V) {
 	}
 }
 
+type c08AccSub struct {
+	F bool `short:"f"`
+}
+type c08AccAdd struct {
+	G   bool      `short:"g"`
+	Sub c08AccSub `command:"sub"`
+}
+type c08Acc struct {
+	T   []string       `short:"t" long:"tag"`
+	L   map[string]int `short:"l"`
+	N   int            `short:"n"`
+	Add c08AccAdd      `command:"add" subcommands-optional:"y"`
+}
+
+// H_C08_accum: an ancestor's slice / map / scalar option given on both sides
+// of command words accumulates exactly as if all occurrences stood together.
+func H_C08_accum(v *V) {
+	depth := 1 + v.Choice(2)
+	words := []string{"add", "sub"}[:depth]
+	var argv []string
+	var wantT []string
+	wantL := 0
+	wantN := 0
+	k := 0
+	for slot := 0; slot <= depth; slot++ {
+		if slot > 0 {
+			argv = append(argv, words[slot-1])
+		}
+		switch v.Choice(4) {
+		case 1:
+			x := "x" + v.String(1)
+			argv = append(argv, "-t", x)
+			wantT = append(wantT, x)
+		case 2:
+			k++
+			argv = append(argv, "-l", []string{"", "a:1", "b:2", "c:3"}[k])
+			wantL++
+		case 3:
+			k++
+			argv = append(argv, "-n", []string{"", "4", "5", "6"}[k])
+			wantN = k + 3
+		}
+	}
+	d := &c08Acc{}
+	p := NewNamedParser("prog", None)
+	p.AddGroup("Application Options", "", d)
+	_, err := p.ParseArgs(argv)
+	vObsErr(v, err)
+	v.Assert(err == nil, "an ancestor's options are accepted at every position")
+	if err != nil {
+		return
+	}
+	v.Reach("success")
+	v.Assert(v.EqStrs(d.T, wantT), "a slice option of an ancestor keeps the elements given before a command word when it is given again after it")
+	v.Assert(len(d.L) == wantL && d.N == wantN, "map entries accumulate across command words; a scalar holds the last value")
+}
+
 func init() {
+	vHarnesses["H_C08_accum"] = H_C08_accum
 	vHarnesses["H_C08_tree"] = H_C08_tree
 	vHarnesses["H_C08_word"] = H_C08_word
 }
